@@ -35,8 +35,25 @@ def _gen_cls(classes, nq, nt):
 def impl_dense(c):
     op, in_shape = opzoo.build(c)
     F, G, out_shape = opzoo.dense(op, in_shape, opzoo.dtype_of(c))
-    return {'F': [[[v.real, v.imag] for v in col] for col in F.T.tolist()], 'G': [[[v.real, v.imag] for v in col] for col in G.T.tolist()],
+    ip = _inner_product_check(op, in_shape, out_shape, opzoo.dtype_of(c))
+    return {'ip': ip, 'F': [[[v.real, v.imag] for v in col] for col in F.T.tolist()], 'G': [[[v.real, v.imag] for v in col] for col in G.T.tolist()],
             'in': list(in_shape), 'out': out_shape}
+
+
+def _inner_product_check(op, in_shape, out_shape, dt, seed=7):
+    """<A u, v> - <u, A^H v> for random (complex where allowed) Gaussian-integer u, v: the statement itself."""
+    g = torch.Generator().manual_seed(seed)
+
+    def rnd(shape):
+        re = torch.randint(-4, 5, shape, generator=g).to(torch.float64)
+        im = torch.randint(-4, 5, shape, generator=g).to(torch.float64)
+        return (re + 1j * im).to(dt) if dt.is_complex else re.to(dt)
+    u, v = rnd(list(in_shape)), rnd(list(out_shape))
+    (au,), (ahv,) = op(u), op.adjoint(v)
+    lhs = torch.vdot(v.reshape(-1).to(torch.complex128), au.reshape(-1).to(torch.complex128))
+    rhs = torch.vdot(ahv.reshape(-1).to(torch.complex128), u.reshape(-1).to(torch.complex128))
+    scale = max(1.0, abs(lhs), abs(rhs))
+    return [float(abs(lhs - rhs)) / scale, [lhs.real.item(), lhs.imag.item()], [rhs.real.item(), rhs.imag.item()]]
 
 
 def _mat(o, key):
@@ -53,6 +70,8 @@ def oracle_adjoint(c, o):
     if F.shape != G.T.shape:
         return f'adjoint maps to a space of different size: F {F.shape} G {G.shape}'
     tol = TOL.get(c['cls'], 0.0)
+    if 'ip' in o and o['ip'][0] > max(tol, 1e-12):
+        return f'<A u, v> = {o["ip"][1]} but <u, A^H v> = {o["ip"][2]} for random complex u, v (seed 7) of shapes {o["in"]}, {o["out"]}'
     D = np.abs(G - F.conj().T)
     scale = max(1.0, np.abs(F).max() if F.size else 1.0)
     if D.size and D.max() > tol * scale:
@@ -156,7 +175,8 @@ def impl_tree(c):
     if isinstance(op, ops.ZeroOp):
         return {'zero': True}
     F, G, out_shape = opzoo.dense(op, [c['n']])
-    return {'F': [[[v.real, v.imag] for v in col] for col in F.T.tolist()], 'G': [[[v.real, v.imag] for v in col] for col in G.T.tolist()],
+    ip = _inner_product_check(op, [c['n']], out_shape, torch.complex128)
+    return {'ip': ip, 'F': [[[v.real, v.imag] for v in col] for col in F.T.tolist()], 'G': [[[v.real, v.imag] for v in col] for col in G.T.tolist()],
             'in': [c['n']], 'out': out_shape}
 
 
